@@ -281,7 +281,7 @@ def run(tier="quick", seed=0, jobs=16):
     rep.assumptions = [ASSUMPTIONS["T"], "VALID: p_id unique and >= 0; partner/spouse pointers are -1 or an existing p_id other than one's own and symmetric; Einstandspartner share hh_id; fewer than 100 self-sufficient children per Familiengemeinschaft; hh_id, fg_id >= 0",
                        "python ints are mathematical integers; dict / Counter / list modelled as (domain, value) arrays / total map / (array, length)",
                        "fg_id_numpy: stage contracts #index, #assign (safety, range, fg within hh, non-partner adults never share), #partners (partners share; VALID: no partnered person is eligible as a child, p_id >= 0), #children (eligible children share with co-resident parents; VALID: parents exist, co-resident parents of an eligible child are partners) are discharged for any number of rows; the full partition is additionally compared with the executable spec bounded-exhaustively up to " + ("4" if tier == "quick" else "5") + " persons (typed structures up to isomorphism x all row orders)"]
-    rep.trusted = ["numpy.asarray(list) keeps the elements in order", "enumerate / dict / Counter / list.append semantics as modelled in vt/loopvc.py", "z3 5.1.0 (quantifier instantiation)"]
+    rep.trusted = ["numpy.asarray(list) keeps the elements in order", "enumerate / dict / Counter / list.append / dict of lists (d[k] = [], d[k].append, d.get(k, [])) / list + list (fresh list) / nested for-over-list semantics as modelled in vt/loopvc.py", "z3 5.1.0 (quantifier instantiation)"]
     # V: proofs
     results = par.pmap(_vc_worker, PROVED + STAGES, jobs)
     lost = {}
@@ -397,7 +397,7 @@ def run(tier="quick", seed=0, jobs=16):
         rep.assumptions.extend(stage_skipped)
         rep.bounded["fg_id_numpy_stage_contracts_not_checked"] = {"evaluations": 0, "distinct_nontrivial": 0, "rule": "; ".join(stage_skipped)}
     rep.bounded["fg_id_numpy_random"] = {"evaluations": n_rand, "distinct_nontrivial": n_rand // 6, "rule": "seeded random unambiguous structures with 6-8 persons, up to 3 households, random p_id labels, 6 random row orders each; distinct = structures"}
-    rep.functions.add("src/_gettsim/groupings.py:101 fg_id_numpy (stage 1 = index-building loop by contract; the kernel as a whole bounded exhaustive, not proved)")
+    rep.functions.add("src/_gettsim/groupings.py:101 fg_id_numpy (both loops by stage contracts: #index functional; #assign / #partners / #children: safety, range, R2 nesting, R3 exclusion, R4 partners, R5 children, on the stated validity domains; the full partition additionally bounded-exhaustive against the executable spec)")
     for b in bad + bad2:
         rep.violation(f"{b['kernel']}:spec-mismatch", f"{b['kernel']} on {b['inputs']} gives {b['got']}, expected {b.get('expected')}", b, True)
     for sig, ex in sorted(fg_bad.items()):
